@@ -1,0 +1,84 @@
+//go:build verif
+
+package syncer
+
+import (
+	"sync"
+	"unsafe"
+
+	"go.sia.tech/coreutils/threadgroup"
+)
+
+// verifEvent records one atomic step of the syncer in the order shared with
+// the thread group's events; it is called from inside the critical section
+// that performs the step.
+func verifEvent(kind string, a, b int) { threadgroup.VerifRecord(kind, a, b) }
+
+func (s *Syncer) verifID() int { return int(uintptr(unsafe.Pointer(s))) }
+func (p *Peer) verifID() int   { return int(uintptr(unsafe.Pointer(p))) }
+
+// VerifID returns the identity under which s appears in recorded events.
+func (s *Syncer) VerifID() int { return s.verifID() }
+
+// VerifTG returns the identity of the syncer's thread group in recorded events.
+func (s *Syncer) VerifTG() int { return s.tg.VerifID() }
+
+// VerifID returns the identity under which p appears in recorded events.
+func (p *Peer) VerifID() int { return p.verifID() }
+
+// A VerifSubnet names one (syncer, subnet key) pair that appeared in an event.
+type VerifSubnet struct {
+	ID     int
+	Syncer int
+	Key    string
+}
+
+var verifSubs struct {
+	mu  sync.Mutex
+	ids map[VerifSubnet]int
+	all []VerifSubnet
+}
+
+// verifSub returns a small id for the subnet key of s.
+func (s *Syncer) verifSub(key string) int {
+	verifSubs.mu.Lock()
+	defer verifSubs.mu.Unlock()
+	k := VerifSubnet{Syncer: s.verifID(), Key: key}
+	if id, ok := verifSubs.ids[k]; ok {
+		return id
+	}
+	if verifSubs.ids == nil {
+		verifSubs.ids = make(map[VerifSubnet]int)
+	}
+	id := len(verifSubs.all) + 1
+	verifSubs.ids[k] = id
+	k.ID = id
+	verifSubs.all = append(verifSubs.all, k)
+	return id
+}
+
+// VerifSubnets returns every (syncer, subnet key) pair seen so far.
+func VerifSubnets() []VerifSubnet {
+	verifSubs.mu.Lock()
+	defer verifSubs.mu.Unlock()
+	return append([]VerifSubnet(nil), verifSubs.all...)
+}
+
+// verifDir packs a peer count and a direction into one event argument.
+func verifDir(n int, inbound bool) int {
+	if inbound {
+		return n<<1 | 1
+	}
+	return n << 1
+}
+
+// verifPeers counts the peers of one direction; s.mu must be held.
+func (s *Syncer) verifPeers(inbound bool) int {
+	var n int
+	for _, p := range s.peers {
+		if p.Inbound == inbound {
+			n++
+		}
+	}
+	return verifDir(n, inbound)
+}
